@@ -45,8 +45,8 @@ CLAIMED = {
    technique="Lean 4 proof (loop invariants by induction on fuel) + differential correspondence under a virtual clock",
    design="§8 C16"),
  "C19": dict(
-   text="Theorems over the model of the Caddy module (UnmarshalCaddyfile + Provision) and of the legacy options (ValidateConfig + NewHubFromViper): no publisher key ⇒ rejected; no subscriber key without anonymous ⇒ rejected; invalid origin / version / directive ⇒ rejected; what starts has exactly the configured values or the documented defaults; a started hub has a usable publisher key, and a subscriber key unless anonymous; a duration set to 0 is disabled. The repairs of config.go are regenerated facts (witnesses for F10, F12). Tie: random directive sets through the real Caddy module in process (Caddyfile and JSON forms, three transports) and viper maps through NewHubFromViper; effective options read back and verification key/algorithm probed with the harness's own tokens.",
-   note=TB + "Argument classes (PEM parsing, URL parsing, duration parsing) are decided by libraries and classified by the harness. JWKS URLs need the network: excluded.",
+   text="Theorems over the model of the Caddy module (UnmarshalCaddyfile + Provision) and of the legacy options (ValidateConfig + NewHubFromViper): no publisher key ⇒ rejected; no subscriber key without anonymous ⇒ rejected; invalid origin / version / directive ⇒ rejected; what starts has exactly the configured values or the documented defaults; a started hub has a usable publisher key, and a subscriber key unless anonymous; a duration set to 0 is disabled; the transport in effect (kind, file, bucket, history size, cleanup frequency) is the configured one for the `transport` directive, the deprecated transport_url and the legacy option — a well-formed size is applied (strconv.ParseUint modelled: digits only, < 2^64), a malformed size / frequency, an unknown scheme or a missing path is rejected, the URL wins over the directive, omitted parameters take the code's defaults. The repairs of config.go are regenerated facts (witnesses for F10, F12). Tie: random directive sets through the real Caddy module in process (Caddyfile and JSON forms, transports in directive and URL form with well-formed and malformed parameters, read back from the transport that was built) and viper maps through NewHubFromViper; effective options read back and verification key/algorithm probed with the harness's own tokens.",
+   note=TB + "Argument classes (PEM parsing, URL parsing, duration and float parsing, encoding/json's float64 round trip of sizes >= 2^53 in the directive form) are decided by libraries and classified by the harness. JWKS URLs need the network: excluded.",
    technique="Lean 4 proof (decision logic) + regenerated-fact obligation + differential correspondence through the real Caddy module and viper path",
    design="§8 C19"),
  "C01": dict(
@@ -55,7 +55,7 @@ CLAIMED = {
    technique="Lean 4 proof (inductive invariant over operation histories of the hub model) + differential correspondence through the HTTP handlers under a virtual clock",
    design="§8 C01"),
  "C15": dict(
-   text="Theorems: closing marks every registered subscriber's stream ended; a publish after close changes nothing and is not answered 200; a subscribe after close is refused and registers nothing; closing twice is the identity; a restart keeps the stored history and reports the last stored id; without retention the stored history is exactly the accepted updates after any history including closes and restarts. Region level: see C14's model (close_ends_registered / after_close_rejected). Tie: hub histories with close/restart (also while a cut-off slow consumer is still listed), and controlled schedules with Close racing the other operations over 2-4 registered subscribers some of which have already ended; oracles 'transport closed ⇒ every subscriber registered before the close began has its channel closed' and 'hub closed ⇒ every stream whose writer is not blocked has ended'.",
+   text="Theorems: closing marks every registered subscriber's stream ended; a publish after close changes nothing and is not answered 200; a subscribe after close is refused and registers nothing; closing twice is the identity; a restart keeps the stored history and reports the last stored id; without retention the stored history is exactly the accepted updates after any history including closes and restarts. Region level: see C14's model (close_ends_registered / after_close_rejected). Tie: hub histories with close/restart (also while a cut-off slow consumer is still listed), and controlled schedules with Close racing the other operations over 2-4 registered subscribers some of which have already ended; oracles 'transport closed ⇒ every subscriber registered before the close began has its channel closed' (also evaluated at the instant each Close call returns, two overlapping Close calls included), 'nothing started after a returned Close is accepted' and 'hub closed ⇒ every stream whose writer is not blocked has ended'; obligation against a regenerated fact: Close's walk over the subscriber list never stops early.",
    note=TB + SEQ,
    technique="Lean 4 proof (operation-level lemmas + history invariant) + differential correspondence (hub histories, controlled schedules)",
    design="§8 C15"),
